@@ -222,7 +222,13 @@ func (g *c11gen) command() (raw []byte, expect, kind string) {
 		if r.Chance(20) {
 			verb = "gets"
 		}
-		return []byte(verb + " " + strings.Join(ks, " ") + "\r\n"), "values", "get"
+		// a repeated key in a multi-get (finding F23); chosen from the content so that the random stream is not disturbed
+		kind := "get"
+		if len(ks) >= 2 && (len(ks[0])+len(ks[1]))%3 == 0 {
+			ks = append(ks, ks[0])
+			kind = "get-dup"
+		}
+		return []byte(verb + " " + strings.Join(ks, " ") + "\r\n"), "values", kind
 	case p < 55:
 		extra := ""
 		if r.Chance(30) {
